@@ -11,15 +11,6 @@ import (
 	"verifh/wire"
 )
 
-// UserMulti is an unregistered multi-cause type.
-type UserMulti struct {
-	Msg  string
-	Errs []error
-}
-
-func (m *UserMulti) Error() string   { return m.Msg }
-func (m *UserMulti) Unwrap() []error { return m.Errs }
-
 var branchWrappers = []gen.Kind{gen.WWrap, gen.WUserPrefix}
 
 // buildBranch: a leaf, optionally wrapped once.
@@ -52,7 +43,7 @@ func mkMulti(v *sym.V, name string, bs []*gen.B) (error, string) {
 		}
 		return fmt.Errorf("%w & %w & %w", errs[0], errs[1], errs[2]), bs[0].Text + " & " + bs[1].Text + " & " + bs[2].Text
 	}
-	return &UserMulti{Msg: "um", Errs: errs}, "um"
+	return &gen.UserMulti{Msg: "um", Errs: errs}, "um"
 }
 
 // H_C13_Tree: multi-cause errors behave as a tree for Is/IsAny/As/Unwrap, have
